@@ -170,9 +170,12 @@ func (c *rankCache) Add(id uint64, n uint64) {
 	defer c.mu.Unlock()
 	// Ignore if the column count is below the threshold,
 	// unless the count is 0, which is effectively used
-	// to clear the cache value.
+	// to clear the cache value, or the row is in the cache:
+	// its cached count must follow the row.
 	if n < c.thresholdValue && n > 0 {
-		return
+		if _, ok := c.entries[id]; !ok {
+			return
+		}
 	}
 
 	c.entries[id] = n
@@ -186,9 +189,12 @@ func (c *rankCache) BulkAdd(id uint64, n uint64) {
 	defer c.mu.Unlock()
 	// Ignore if the column count is below the threshold,
 	// unless the count is 0, which is effectively used
-	// to clear the cache value (as in Add).
+	// to clear the cache value, or the row is in the cache
+	// (as in Add).
 	if n < c.thresholdValue && n > 0 {
-		return
+		if _, ok := c.entries[id]; !ok {
+			return
+		}
 	}
 
 	c.entries[id] = n
